@@ -52,6 +52,7 @@ Proof. exact use_path_lib. Qed.
 
 (* import_transparent: `n.x` after `use f as n`, and chains `a.b.x`, ARE the variable x of f's table ... *)
 Theorem C12_import_transparent_ns : forall fl fuel st a g gid g' tg x xsp asp v,
+  access_local_first fl && root_on_stack st a = false ->
   ns_path st (sp_file asp) a g ->
   f2n_get (st_n2f st) g = Some gid -> n2f_get (st_n2f st) gid = Some g' -> fol_get (st_ns st) g' = Some tg ->
   ns_get tg x = Some (NName v) ->
